@@ -8,6 +8,7 @@
 # pylint doesn't know about __init__ generated with dataclass
 # pylint:disable=unexpected-keyword-arg,no-value-for-parameter
 import builtins
+import copy
 import dataclasses
 import datetime
 import decimal
@@ -1011,8 +1012,15 @@ class DateTime(_BaseDateTime, dtypes.Timestamp):
         data_container: Optional[PandasObject] = None,
     ) -> Union[bool, Iterable[bool]]:
         if self.time_zone_agnostic:
-            self._prepare_check_time_zone_agnostic(
+            # resolve the expected type on a copy: this data type instance is
+            # shared with the schema and must not be rewritten by a check
+            resolved = copy.copy(self)
+            resolved._prepare_check_time_zone_agnostic(
                 pandera_dtype=pandera_dtype, data_container=data_container
+            )
+            # pylint: disable=super-with-arguments
+            return super(DateTime, resolved).check(
+                pandera_dtype, data_container
             )
         return super().check(pandera_dtype, data_container)
 
